@@ -69,6 +69,11 @@ def stepLine (d : DSt) (toks : List String) : DSt × String :=
     let s := d.s
     let started := s.log.any fun e => e == .draw
     (d, s!"out={encStr (outText s.log)} term={if started then "-" else encStr (termText s.log)} quiescent={encBool (quiescent s)}")
+  | "soak" :: _ :: strs =>
+    -- per-thread projection of the output of a free running case: the thread's writes, in order
+    match strs.mapM decStr with
+    | some ws => (d, encStr (cat ws))
+    | none => (d, "bad-op")
   | "cinit" :: _ | "center" :: _ | "cstep" :: _ | "cstop" :: _ | "cstart" :: _ =>
     match C20Chain.stepLine d.c toks with
     | some (c', r) => ({ d with c := c' }, r)
